@@ -11,7 +11,7 @@ part "matrix"   every member A (m x n, 1<=n<=m<=M) of the families below goes th
                  every k >= nullity): [V0 V1] unitary, ||A V0_i|| = i-th smallest singular value,
                  S = remaining ones in the order of V1
     peig/leig    on the Hermitian matrices A^H A (definite) and A A^H (semi-definite, repeated
-                 zero eigenvalue) for every k: eigen pairs, the right ones, right order, ValueError for k>N
+                 zero eigenvalue) for every k: eigen pairs, the right ones, right order (k>N: outcome only)
     whitening    C = A A^H + eps I (low rank + noise floor: repeated eigenvalue) and C = A^H A:
                  W^H C W = I
 part "update"   update_inv_sum_diag(X, d): (I + X d) R = X and R (X^-1 + diag d) = I for HPD X and
@@ -475,15 +475,17 @@ def run_eig(chk, case, Cm, which):
                           compare_layouts=False)
         cs = dict(case, kernel=fn, matrix=which, k=Nn + 1)
         chk.count("eval_" + fn)
+        # k > N is an INVALID call; the property says nothing about it (tools/INVALID_CALL_POLICY.md):
+        # what happens is recorded as an outcome only.  The functions are stateless, so the valid calls
+        # of the following items are the "subsequent valid operations".
         Cin = np.array(Cm)
         try:
             f(Cin, Nn + 1)
-            chk.fail((fn, "no_ValueError_for_k>N"), cs, observed="returned", expected="ValueError")
-        except ValueError:
-            if not np.array_equal(Cin, Cm):
-                chk.fail((fn, "rejected_call_changed_argument"), cs)
+            how = "accepted"
         except Exception as e:  # noqa
-            chk.fail((fn, "wrong_exception_for_k>N"), cs, observed=type(e).__name__, expected="ValueError")
+            how = "raised:" + type(e).__name__
+        chk.outcome("invalid_call", (fn + "(k>N)", how,
+                                     "argument_unchanged" if np.array_equal(Cin, Cm) else "argument_changed"))
 
 
 # ----------------------------------------------------------------------
@@ -522,25 +524,24 @@ def run_whiten(chk, case, Cm, which):
 
 # ----------------------------------------------------------------------
 def run_rank_deficient(chk, case, A):
-    """error path: the projection of a rank-deficient matrix does not exist.  The call may raise
-    LinAlgError (exactly singular A^H A) or return something; it must not change its argument, must not
-    raise anything else, and must leave later (valid) projections untouched"""
+    """the projection of a rank-deficient matrix is an invalid call: what it does is an outcome only;
+    later valid projections must be untouched"""
     from pyphysim.subspace import projections as PR
     chk.count("eval_projection_error_path")
     A0 = np.array(A)
-    with chk.guard(("projection", "rank_deficient"), case):
-        out = "returned"
-        try:
-            PR.Projection(A0)
-        except np.linalg.LinAlgError:
-            out = "LinAlgError"
-        if not np.array_equal(A0, A):
-            chk.fail(("projection", "rejected_call_changed_argument"), case)
-        chk.outcome("proj_error_path", out)
+    try:
+        PR.Projection(A0)
+        how = "accepted"
+    except Exception as e:  # noqa  - an invalid call is free to raise anything (tools/INVALID_CALL_POLICY.md)
+        how = "raised:" + type(e).__name__
+    chk.outcome("invalid_call", ("Projection(rank deficient)", how,
+                                 "argument_unchanged" if np.array_equal(A0, A) else "argument_changed"))
+    with chk.guard(("after_invalid_call", "Projection(rank deficient)"), case):
+        # what IS required: a subsequent VALID projection is right
         G = F.generic(0, (A.shape[0], 1), True, tag=23)
         Ug = G / np.linalg.norm(G)
         if not N.close(PR.calcProjectionMatrix(G), Ug @ H(Ug), 1.0, C):
-            chk.fail(("projection", "valid_call_after_rejected_call_wrong"), case)
+            chk.fail(("after_invalid_call", "Projection(rank deficient)", "valid_projection_wrong"), case)
 
 
 def run_matrix_item(chk, fam, member, A):
